@@ -234,7 +234,7 @@ def run_scenario(res, scenario, max_paths=64, max_decisions=60, timeout_ms=20000
             v, model, _ = solve.prove(goal, timeout_ms=timeout_ms)
             res.ob(v, "%sside:%s:%s" % (tag, kind, info),
                    {"kind": "model", "env": solve.model_env(model)} if v == "sat" else None)
-        store.append((list(ST.pathcond), triples, dict(ST.evar_of), dict(ST.roots)))
+        store.append((list(ST.pathcond), triples, dict(ST.evar_of), dict(ST.roots), dict(ST.defs)))
         return len(triples)
 
     outcomes = ex.run(once)
@@ -243,7 +243,7 @@ def run_scenario(res, scenario, max_paths=64, max_decisions=60, timeout_ms=20000
         if kind == "bound":
             res.unknown.append({"what": tag + "path bound hit: %s" % out})
     if store and len(res.samples) < 3:
-        pc, triples, _, _ = store[0]
+        pc, triples = store[0][0], store[0][1]
         if triples:
             l, g, w = triples[len(triples) // 2]
             res.samples.append({"obligation": tag + str(l), "got": repr(g)[:160], "want": repr(w)[:160],
@@ -258,9 +258,9 @@ def run_scenario(res, scenario, max_paths=64, max_decisions=60, timeout_ms=20000
             res.notes.append("float run raised %s: %s" % (type(e).__name__, e))
             ftriples = None
         if ftriples is not None:
-            for pc, triples, evar_of, roots in store:
-                old = (ST.evar_of, ST.roots)
-                ST.evar_of, ST.roots = evar_of, roots
+            for pc, triples, evar_of, roots, defs in store:
+                old = (ST.evar_of, ST.roots, ST.defs)
+                ST.evar_of, ST.roots, ST.defs = evar_of, roots, defs
                 try:
                     try:
                         ok = all(solve.evalf(c, F.env) for c in pc)
@@ -268,10 +268,14 @@ def run_scenario(res, scenario, max_paths=64, max_decisions=60, timeout_ms=20000
                         ok = False
                     if not ok:
                         continue
-                    if len(triples) != len(ftriples):
-                        res.fidelity_fail.append("%snumber of results differs: symbolic %d vs float %d" % (tag, len(triples), len(ftriples)))
+                    flab = {}
+                    for l2, g2, _ in ftriples:
+                        flab.setdefault(l2, g2)
+                    common_labels = [(l1, g1, flab[l1]) for l1, g1, _ in triples if l1 in flab]
+                    if not common_labels and triples and ftriples:
+                        res.fidelity_fail.append("%sno result label in common between the symbolic and the float run" % tag)
                         break
-                    for (l1, g1, _), (l2, g2, _) in zip(triples, ftriples):
+                    for l1, g1, g2 in common_labels:
                         try:
                             if isinstance(g1, core.SL) and g1.st == "bad":
                                 continue
@@ -294,7 +298,7 @@ def run_scenario(res, scenario, max_paths=64, max_decisions=60, timeout_ms=20000
                             break
                     break
                 finally:
-                    ST.evar_of, ST.roots = old
+                    ST.evar_of, ST.roots, ST.defs = old
     return outcomes
 
 
@@ -314,8 +318,16 @@ def check_triples_batched(res, triples, timeout_ms=20000, tol=None, tag=""):
             v, model, _ = solve.prove(got.t, timeout_ms=timeout_ms)
             res.ob(v, what, {"kind": "model", "env": solve.model_env(model)} if v == "sat" else None)
             continue
+        if isinstance(got, (int, float, np.floating)) and isinstance(want, (int, float, np.floating)) and not isinstance(got, bool):
+            same = (float(got) == float(want)) or (math.isnan(float(got)) and math.isnan(float(want)))
+            res.ob("unsat" if same else "sat", what, {"kind": "structural", "got": str(got), "want": str(want)})
+            continue
         if isinstance(want, (bool, np.bool_, str, tuple, int)) and not isinstance(got, core.Sym) or isinstance(got, (bool, np.bool_, str, tuple)):
             res.ob("unsat" if got == want else "sat", what, {"kind": "structural", "got": str(got), "want": str(want)})
+            continue
+        if got is want or _same_term(got, want):
+            solve.STATS.trivial += 1
+            res.ob("unsat", what)
             continue
         try:
             if isinstance(got, core.SL) != isinstance(want, core.SL):
@@ -347,7 +359,7 @@ def check_triples_batched(res, triples, timeout_ms=20000, tol=None, tag=""):
         pending.append((what, r == 0, got, want))
     goals = [p for p in pending if p[1] is not None]
     if len(goals) > 1:
-        v, model, _ = solve.prove(z3.And([g[1] for g in goals]), timeout_ms=timeout_ms)
+        v, model, _ = solve.prove(z3.And([g[1] for g in goals]), timeout_ms=min(timeout_ms, 15000))
         if v == "unsat":
             for what, _, _, _ in goals:
                 res.ob("unsat", what)
@@ -358,6 +370,15 @@ def check_triples_batched(res, triples, timeout_ms=20000, tol=None, tag=""):
         else:
             v, model, _ = solve.prove(goal, timeout_ms=timeout_ms)
         res.ob(v, what, {"kind": "model", "env": solve.model_env(model)} if v == "sat" else None)
+
+
+def _same_term(a, b):
+    """syntactically the same value (same numerator term, same factor dict)"""
+    if isinstance(a, core.SR) and isinstance(b, core.SR):
+        return a.n.eq(b.n) and core._feq(a.f, b.f)
+    if isinstance(a, core.SL) and isinstance(b, core.SL):
+        return a.st == b.st and a.st != "bad" and a.c == b.c and core._feq(a.f, b.f)
+    return False
 
 
 def replay_scenario(scenario, cand, tries=3, tol=1e-6, seed=7):
